@@ -134,7 +134,8 @@ def outJson : Outcome ((Nat × Nat) × List (Call V) × List (Row V RTab)) → J
   | .crashed e => errJson e
   | .ok (_, cs, rs) => obj [("kind", Json.str "ok"), ("calls", ofList callJson cs), ("rows", ofList rowJson rs)]
 
-/-- request: {"cfg":{learn,eval,record}, "batch":null|n, "env":[[[key,fld]…]…], "learner":{has_score, script}}
+/-- request: {"cfg":{learn,eval,record}, "batch":null|n, "env":[[[key,fld]…]…], "learner":{has_score, script},
+"s0":[p,s] (optional: script position of the learner when the evaluation starts — later evaluations of a history)}
 answer: model output, the spec's output on the same case (unbatched reading) and whether the
 hypotheses of the refinement theorem hold for the case -/
 def handle (req : Json) : Except String Json := do
@@ -147,16 +148,19 @@ def handle (req : Json) : Except String Json := do
   let lj ← field req "learner"
   let script ← (← arr (← field lj "script")).mapM parseEntry
   let L := scripted script (← bool (← field lj "has_score"))
-  let model := evaluate cfg L bs env (0, 0)
+  let s0 : Nat × Nat ← match fieldD req "s0" Json.null with
+    | .arr #[a, b] => do pure ((← nat a), (← nat b))
+    | _ => pure (0, 0)
+  let model := evaluate cfg L bs env s0
   let hyp := wfEnv env && (match env with
     | [] => true
     | first :: _ => (missingKeys cfg L.hasScore first).isEmpty)
   let spec : Option Json := match env with
-    | [] => some (outJson (.ok ((0, 0), [], [])))
+    | [] => some (outJson (.ok (s0, [], [])))
     | first :: _ =>
-      (specRun cfg (mkFlags first) L (0, 0) (env.map view)).map (fun r =>
+      (specRun cfg (mkFlags first) L s0 (env.map view)).map (fun r =>
         outJson (.ok (r.1, r.2.1, r.2.2.filter (fun o => !o.isEmpty))))
-  let modelU := evaluate cfg L none env (0, 0)
+  let modelU := evaluate cfg L none env s0
   pure (obj [("model", outJson model), ("hyp", Json.bool hyp), ("spec", ofOpt id spec),
              ("unbatched", outJson modelU),
              ("required", ofList Json.str (required cfg L.hasScore)),
